@@ -216,6 +216,47 @@ Definition data_steps (l : list tline) : list Z :=
 Definition calc_steps (evs : list tevent) : list Z :=
   flat_map (fun e => match e with TCalc it => [it] | _ => [] end) evs.
 
+(* ---- which other files a step writes (colvarmodule::calc, colvarproxy::post_run) ------------------ *)
+(* FState: the state file (its `step` field is the step at which it is written); FColvar: the output files of the
+   variables (correlation functions); FBias b: the output files of bias b (histograms, PMFs, ...). The output
+   prefix is set. *)
+Inductive ofile := FState | FColvar | FBias (b : Z).
+Record ocfg := mkOC {
+  oc_restart_freq : Z;            (* restart_out_freq (colvarsRestartFrequency / the engine's) *)
+  oc_it_restart : Z;
+  oc_biases : list (Z * Z) }.     (* (bias, its outputFreq) in definition order *)
+
+Definition at_freq (c : ocfg) (f it : Z) : bool :=
+  negb (f =? 0) && (0 <? it - oc_it_restart c) && (it mod f =? 0).
+
+(* colvarmodule::calc(): restart file + variables' files at the restart frequency; each bias's files at its own *)
+Definition out_calc (c : ocfg) (it : Z) : list ofile :=
+  (if at_freq c (oc_restart_freq c) it then [FState; FColvar] else []) ++
+  flat_map (fun bf : Z * Z => if at_freq c (snd bf) it then [FBias (fst bf)] else []) (oc_biases c).
+
+(* colvarproxy::post_run() -> write_restart_file + colvarmodule::write_output_files(): everything that calc() has
+   not already written at this step *)
+Definition out_end (c : ocfg) (it : Z) : list ofile :=
+  FState ::
+  (if at_freq c (oc_restart_freq c) it then [] else [FColvar]) ++
+  flat_map (fun bf : Z * Z => if negb (at_freq c (snd bf) it) then [FBias (fst bf)] else []) (oc_biases c).
+
+Inductive oevent := OCalc (it : Z) | OEnd (it : Z).
+Definition out_event (c : ocfg) (e : oevent) : list (Z * ofile) :=
+  match e with
+  | OCalc it => map (fun f => (it, f)) (out_calc c it)
+  | OEnd it => map (fun f => (it, f)) (out_end c it)
+  end.
+Definition out_run (c : ocfg) (evs : list oevent) : list (Z * ofile) := flat_map (out_event c) evs.
+
+Definition ofile_eqb (a b : ofile) : bool :=
+  match a, b with
+  | FState, FState => true | FColvar, FColvar => true | FBias x, FBias y => x =? y | _, _ => false
+  end.
+(* the steps at which file k is written *)
+Definition writes_of (k : ofile) (l : list (Z * ofile)) : list Z :=
+  flat_map (fun w : Z * ofile => if ofile_eqb (snd w) k then [fst w] else []) l.
+
 Local Close Scope Z_scope.
 
 (* =================================================================================================
